@@ -68,7 +68,7 @@ def generate(outdir):
             open(path, 'w').write(txt)
     from . import fragments
     try:
-        txt = fragments.generate(load('solver'), util, {'solver': load('solver'), 'controller': load('controller')})
+        txt = fragments.generate(load('solver'), util, {'solver': load('solver'), 'controller': load('controller'), 'trust_region': load('trust_region'), 'util': load('util')})
         path = os.path.join(outdir, 'Gen_solver.v')
         if not (os.path.exists(path) and open(path).read() == txt):
             open(path, 'w').write(txt)
